@@ -136,5 +136,8 @@ func VHJSONLoad() {
 // VHHistory: D operations in a row from the constructor (see VMapHistory).
 func VHHistory() {
 	m := NewWith[int, int](vl.Cmp, vValCmp())
+	if v.CfgOr("ctor", 0) == 1 { // the default-comparator constructor (cmp.Compare); only meaningful with cmp=0
+		m = New[int, int]()
+	}
 	maps.VMapHistory(m, maps.VKind{Name: "TreeBidiMap", Bidi: true, Sorted: true, ValDesc: v.CfgOr("cmpv", 0) == 1, GetKey: m.GetKey, Inv: func() { VInv(m) }})
 }
